@@ -80,6 +80,8 @@ def check_case(case):
     return True
 
   bad_sig_required = [p for p in req_defaults if not configurable_param(p)]
+  if shape.get('also_as'):
+    labels.add('same-object-registered-before-without-lists')
   if bad_sig_required:
     try:
       G.build(shape, gin)
@@ -247,6 +249,18 @@ def strategy(draw):
         subset = [p for p in subset if p not in shape['required_defaults']]
     if subset:
       shape['allowlist' if lists == 'allow' else 'denylist'] = subset
+      if shape['kind'] == 'function' and shape['api'] != 'configurable' and draw(st.booleans()):
+        # the same function object was registered before under another name, without lists: the
+        # lists of *this* registration still decide
+        shape['also_as'] = 'c10first'
+        if shape['required_defaults'] and draw(st.booleans()):
+          # ... and they exclude a parameter the signature marks REQUIRED: rejected all the same
+          bad = shape['required_defaults'][0]
+          if lists == 'allow':
+            shape['allowlist'] = [p for p in shape['allowlist'] if p != bad] or [
+                p for p in named if p != bad][:1] or ['zz']
+          else:
+            shape['denylist'] = sorted(set(shape['denylist']) | {bad})
   if (shape['kind'] == 'function' and defaulted and 'allowlist' not in shape and
       'denylist' not in shape and draw(st.integers(0, 4)) == 0):
     shape['twin_required_defaults'] = draw(st.lists(st.sampled_from(defaulted), unique=True))
